@@ -71,6 +71,12 @@ func vfGenPools(r *vfRand, withBig bool, names []string) []metallbv1beta1.IPAddr
 				at.NamespaceSelectors = []metav1.LabelSelector{{MatchLabels: map[string]string{"team": vfPick(r, []string{"a", "a", "b", "b", "nobody"})}}}
 			case 2:
 				at.ServiceSelectors = []metav1.LabelSelector{{MatchLabels: map[string]string{"tier": vfPick(r, []string{"web", "db"})}}}
+				switch r.Intn(5) {
+				case 0: // negative requirements select a service without labels too
+					at.ServiceSelectors = []metav1.LabelSelector{{MatchExpressions: []metav1.LabelSelectorRequirement{{Key: "tier", Operator: metav1.LabelSelectorOpNotIn, Values: []string{vfPick(r, []string{"web", "db"})}}}}}
+				case 1:
+					at.ServiceSelectors = []metav1.LabelSelector{{MatchExpressions: []metav1.LabelSelectorRequirement{{Key: "tier", Operator: metav1.LabelSelectorOpDoesNotExist}}}}
+				}
 			case 3:
 				at.Namespaces = []string{vfPick(r, []string{"ns1", "ns2"})}
 				at.ServiceSelectors = []metav1.LabelSelector{{MatchLabels: map[string]string{"tier": "web"}}}
